@@ -91,4 +91,11 @@ PROPS["C08"] = {
     "assumptions": ["rectangle interval arithmetic with the tolerances of the property text"],
     "parts": [{"name": "cola", "src": "c07_cola.cpp", "quick": T(150, 4, ["--prop", "C08"], 100), "thorough": T(1700, 4, ["--prop", "C08"], 100)}],
 }
+PROPS["C06"] = {
+    "engine": "mcx-bfs",
+    "rule": "start scenes: every interior-disjoint choice of 2-3 rectangles from a 6-element list (touching and separated pairs) with 1-2 point-to-point connectors from a 5-element endpoint list on the grid 0..6 (x10). Operations: moveShape by one cell in +-x/+-y, deleteShape, addShape (two further rectangles), setSourceEndpoint/setDestEndpoint to three grid points; processTransaction after every op, after every second op, or transactions disabled. All legal sequences (shape alive; no delete of a shape added in the same transaction) to the depth bound, both routing modes. After every transaction: routes valid for the model scene, cost <= cost in a freshly built router for the same scene (1e-6), an extra empty transaction changes no route. Intermediate scenes may overlap; overlapping final scenes and endpoints inside shapes are skipped. Non-trivial = some shape was moved, added or deleted.",
+    "bounds": {"quick": "depth 2 (2 shapes, 1 connector), depth 1 (3 shapes, 2 connectors)", "thorough": "depth 3 (4 with two ops per transaction); 3 shapes depth 2-3"},
+    "assumptions": ["stateless search: every history is replayed on a fresh router (no state merging)", "orthogonal cost = Manhattan length + segmentPenalty*bends of the raw route()"],
+    "parts": [{"name": "incremental", "src": "c06_incremental.cpp", "quick": T(120, 30, [], 100), "thorough": T(1700, 60, [], 100)}],
+}
 NOT_APPLICABLE = {}
